@@ -50,13 +50,13 @@ AddNodeArgs(c) ==
 Norm(r) == [s |-> r.s, ok |-> r.ok, err |-> r.err, emit |-> r.emit, ret |-> r.ok]
 
 IsEdit(c) == c[1] \notin {KUndo, KRedo}
-Ords(c) == IF c[1] \in {KAddNode, KPaint} THEN {1, 2} ELSE {1}
+Ords(c) == IF c[1] \in {KAddNode, KPaint, KDelNode} THEN {1, 2} ELSE {1}
 
 StepOrd(S, c, ord) ==
     CASE c[1] = KAddNode -> Norm(UAddNode(S, AddNodeArgs(c), ord, TRUE))
       [] c[1] = KAddEdge -> Norm(UAddEdge(S, c[2], c[3], c[4] = 1, TRUE))
       [] c[1] = KDelEdge -> Norm(UDelEdge(S, c[2], c[3], TRUE))
-      [] c[1] = KDelNode -> Norm(UDelNode(S, c[2], {}, TRUE, TRUE))
+      [] c[1] = KDelNode -> Norm(UDelNode(S, c[2], {}, TRUE, ord, TRUE))
       [] c[1] = KSwap    -> Norm(USwap(S, c[2], c[3]))
       [] c[1] = KSetAttr -> Norm(UUpdAttrs(S, c[2], KeyName(c[3]), c[4]))
       [] c[1] = KUndo    -> Undo(S)
